@@ -104,26 +104,35 @@ func JSONGetNaturalLanguageField(val *fastjson.Value, prop string) NaturalLangua
 		return n
 	}
 	v := val.Get(prop)
-	if v == nil {
+	// NOTE: the encoder writes multiple language values under the "<prop>Map" term
+	vMap := val.Get(prop + "Map")
+	if v == nil && vMap == nil {
 		return nil
 	}
-	switch v.Type() {
-	case fastjson.TypeObject:
+	loadMap := func(v *fastjson.Value) {
 		ob, _ := v.Object()
 		ob.Visit(func(key []byte, v *fastjson.Value) {
 			l := LangRefValue{}
 			l.Ref = LangRef(key)
-			if err := l.Value.UnmarshalJSON(v.GetStringBytes()); err == nil {
-				if l.Ref != NilLangRef || len(l.Value) > 0 {
-					n = append(n, l)
-				}
+			l.Value = unescape(v.GetStringBytes())
+			if l.Ref != NilLangRef || len(l.Value) > 0 {
+				n = append(n, l)
 			}
 		})
-	case fastjson.TypeString:
-		l := LangRefValue{}
-		if err := l.UnmarshalJSON(v.GetStringBytes()); err == nil {
-			n = append(n, l)
+	}
+	if v != nil {
+		switch v.Type() {
+		case fastjson.TypeObject:
+			loadMap(v)
+		case fastjson.TypeString:
+			l := LangRefValue{}
+			if err := l.UnmarshalJSON(v.GetStringBytes()); err == nil {
+				n = append(n, l)
+			}
 		}
+	}
+	if vMap != nil && vMap.Type() == fastjson.TypeObject {
+		loadMap(vMap)
 	}
 
 	return n
